@@ -49,7 +49,7 @@ impl ScProp {
         match self.v {
             Variant::C01 => &["config", "config-midstep"],
             Variant::C02 => &["enabled-set", "exit-order", "entry-order", "content-order", "config", "other"],
-            Variant::C03 => &["macrostep", "internal-order"],
+            Variant::C03 => &["macrostep", "internal-order", "error-event"],
             Variant::C06 => &["history-entry"],
             Variant::C07 => &["done-event", "termination"],
             Variant::C08 => &["content-order", "error-event", "data-value"],
@@ -104,6 +104,8 @@ impl ScProp {
             }
             Variant::C03 => {
                 p.raise = 400;
+                // error events are internal events too: two failing blocks in one microstep queue two of them
+                p.errors = 60;
                 p.eventless = 250;
                 p.selfsend = 150;
                 p.content = 800;
@@ -585,7 +587,16 @@ impl Property for ScProp {
                             probes.hit("snapshots_checked");
                             if !ended {
                                 if let Err(e) = legality(doc, c) {
-                                    verdict.violations.push(viol("C01", "C01.illegal-configuration", format!("configuration {:?} is not legal: {}", c, e), format!("illegal:{}", e.split(' ').take(2).collect::<Vec<_>>().join(" "))));
+                                    // same root cause as the double entry above when the microstep targeted a history
+                                    // pseudo-state whose parent stays active: completing the "ancestors" default-enters a
+                                    // parallel region in which another transition of the same microstep enters a state
+                                    let via_history = pred.micro_info.iter().rev().find(|(i, _)| *i <= oi).map(|x| x.1).unwrap_or(false);
+                                    let sig = if via_history {
+                                        "illegal-after:history-target-while-its-parent-stays-active".to_string()
+                                    } else {
+                                        format!("illegal:{}", e.split(' ').take(2).collect::<Vec<_>>().join(" "))
+                                    };
+                                    verdict.violations.push(viol("C01", "C01.illegal-configuration", format!("configuration {:?} is not legal: {}", c, e), sig));
                                 }
                                 if *c != active {
                                     verdict.violations.push(viol("C01", "C01.shadow-mismatch", format!("configuration {:?} differs from the states entered and not exited {:?}", c, active), "shadow".into()));
